@@ -5,6 +5,7 @@ package checks
 import (
 	"fmt"
 	"math/rand"
+	"runtime/debug"
 	"sort"
 	"strings"
 
@@ -29,25 +30,25 @@ func init() {
 			}
 			return 320
 		},
-		RunCase:     c06Run,
-		Witness:     runSQLWitness,
+		RunCase: c06Run,
+		Witness: runSQLWitness,
 	})
 }
 
 type c06State struct {
-	env    *core.Env
-	r      *rand.Rand
-	res    *core.CaseResult
-	db     *sqlx.DB
-	path   string
-	memKB  int
-	t      *rm.Table
-	via    string
-	idx    []string
-	nDB    int
-	schema string
-	dead   bool
-	dmlTags []string
+	env      *core.Env
+	r        *rand.Rand
+	res      *core.CaseResult
+	db       *sqlx.DB
+	path     string
+	memKB    int
+	t        *rm.Table
+	via      string
+	idx      []string
+	nDB      int
+	schema   string
+	dead     bool
+	dmlTags  []string
 	sentinel bool
 	longIdx  bool // strings of more than 900 bytes may be stored in indexed columns
 }
@@ -86,7 +87,7 @@ func (s *c06State) rebuild() {
 func guarded(f func()) (msg string, panicked bool) {
 	defer func() {
 		if p := recover(); p != nil {
-			msg = fmt.Sprint(p)
+			msg = fmt.Sprint(p) + " @ " + engineFrames(debug.Stack())
 			panicked = true
 		}
 	}()
@@ -624,4 +625,23 @@ func dmlKind(panicked bool, r sqlx.Result) string {
 		return "dml-abort"
 	}
 	return "dml-error"
+}
+
+// engineFrames extracts the innermost engine function names from a stack dump (for triage and finding keys).
+func engineFrames(stack []byte) string {
+	var out []string
+	for _, line := range strings.Split(string(stack), "\n") {
+		if strings.HasPrefix(line, "github.com/ryogrid/") {
+			f := line
+			if i := strings.LastIndex(f, "("); i > 0 {
+				f = f[:i]
+			}
+			f = strings.TrimPrefix(f, "github.com/ryogrid/SamehadaDB/lib/")
+			out = append(out, f)
+			if len(out) >= 4 {
+				break
+			}
+		}
+	}
+	return strings.Join(out, " < ")
 }
